@@ -132,7 +132,72 @@ def callable_kinds_case(_=None):
   return n, n, viols, [dict(scenario='callable kinds sharing one function', cases=n)]
 
 
+def nested_containers_case(_=None):
+  """Nested Buildables inside lists, tuples, dicts, named tuples (required fields, fields with
+  defaults, one field), defaultdicts: build == direct call after replacing each nested Buildable."""
+  import collections
+  import typing
+  from layerb import pool
+  Point = collections.namedtuple('Point', ['x', 'y'])
+  class Spec(typing.NamedTuple):
+    head: typing.Any
+    tail: str = 'default-tail'
+  One = collections.namedtuple('One', ['only'])
+  viols = []
+  def inner(v):
+    return fdl.Config(pool.fb, v)
+  def direct(x):
+    """The value with every nested Buildable replaced by a direct call."""
+    if isinstance(x, fdl.Buildable):
+      return pool.fb(*[direct(v) for k, v in x.__arguments__.items() if isinstance(k, int)],
+                     **{k: direct(v) for k, v in x.__arguments__.items() if isinstance(k, str)})
+    if isinstance(x, tuple) and hasattr(type(x), '_fields'):
+      return type(x)(*[direct(v) for v in x])
+    if isinstance(x, (list, tuple)):
+      return type(x)(direct(v) for v in x)
+    if isinstance(x, collections.defaultdict):
+      return collections.defaultdict(x.default_factory, {k: direct(v) for k, v in x.items()})
+    if isinstance(x, dict):
+      return {k: direct(v) for k, v in x.items()}
+    return x
+  values = {
+      'namedtuple, two required fields': lambda: Point(inner(1), [inner(2)]),
+      'NamedTuple with a default': lambda: Spec(inner(3)),
+      'NamedTuple all fields': lambda: Spec((inner(4),), 't'),
+      'one-field namedtuple': lambda: One({'k': inner(5)}),
+      'namedtuple inside containers': lambda: [Point(1, 2), {'p': Point(inner(6), One(inner(7)))}],
+      'defaultdict': lambda: collections.defaultdict(list, a=[inner(8)]),
+      'tuple / list / dict': lambda: ([inner(9), (inner(10),)], {'d': (1, [2, inner(11)])}),
+  }
+  n = 0
+  for name, mk in values.items():
+    n += 1
+    v = mk()
+    cfg = fdl.Config(pool.fc, v, q=[v] if not isinstance(v, dict) else None)
+    want = pool.fc(direct(v), q=direct([v]) if not isinstance(v, dict) else None)
+    try:
+      got = fdl.build(cfg)
+    except Exception as e:   # pylint: disable=broad-except
+      got = ('raises', type(e).__name__, str(e)[:80])
+    def typed(x):
+      if isinstance(x, tuple) and hasattr(type(x), '_fields'):
+        return (type(x).__name__, tuple(typed(y) for y in x))
+      if isinstance(x, (list, tuple)):
+        return (type(x).__name__, tuple(typed(y) for y in x))
+      if isinstance(x, dict):
+        return (type(x).__name__, tuple((k, typed(y)) for k, y in x.items()))
+      return x
+    if typed(got) != typed(want):
+      viols.append(dict(kinds=[], hasdef=[], store=name, cls='Config', sig='nested-containers', scenario=name,
+                        what=f'{name}: build gives {str(typed(got))[:160]}, the direct call {str(typed(want))[:160]}'))
+  return n, n, viols, [dict(scenario='nested Buildables inside containers and named tuples', cases=n)]
+
+
 def replay(case):
+  if case.get('sig') == 'nested-containers':
+    r = nested_containers_case()
+    m = [v for v in r[2] if v['scenario'] == case.get('scenario')]
+    return m[0]['what'] if m else None
   if case.get('sig') == 'callable-kinds':
     r = callable_kinds_case()
     m = [v for v in r[2] if v['scenario'] == case.get('scenario')]
